@@ -48,26 +48,52 @@ def c055(ctx):
     if not f:
         return
     ret = ctx.calls(R, f, r"sst::gc::Determiner::retain$")
-    # the per-key accumulator = the local handed (by reference) to Determiner::retain as the tombstone list
+    # the per-key accumulator = the Vec<u64> handed (by reference) to Determiner::retain as the tombstone list -- one local, or the chain of
+    # locals it is moved through when it is built in a helper and handed back in a tuple
+    isvec = lambda l: f.locals[l].startswith("alloc::vec::Vec<u64")
     acc = set()
     for p_ in ret:
-        acc |= {l for l in K.user_locals(f, P.term_at(f, p_)["args"][2]) if f.locals[l].startswith("alloc::vec::Vec<u64")}
-    ctx.check(R, f, "accumulator", len(acc) == 1, "retain() is given one local tombstone list", "cannot identify the tombstone accumulator (%s)" % sorted(acc))
+        acc |= {l for l in K.user_locals(f, P.term_at(f, p_)["args"][2]) if isvec(l)}
+    grew = True
+    while grew:
+        grew = False
+        for l in list(acc):
+            for s_ in P.origins(f, {"k": "copy", "pl": {"l": l, "p": []}}):
+                pass
+        for b_ in f.blocks:
+            for st_ in b_.st:
+                if st_["s"] == "=" and st_["rv"].get("r") == "use" and st_["rv"]["a"].get("k") in ("move", "copy"):
+                    src, dst = st_["rv"]["a"]["pl"]["l"], st_["lhs"]["l"]
+                    if not st_["lhs"]["p"] and not st_["rv"]["a"]["pl"]["p"] and isvec(src) and isvec(dst) and (src in acc) != (dst in acc):
+                        acc |= {src, dst}
+                        grew = True
     if len(acc) != 1:
+        # through a tuple (`Some((kvp, tombstones))`): every Vec<u64> local of the function that flows into the one retain() is given
+        flow = {l for l in range(len(f.locals)) if isvec(l) and any(
+            x_["k"] == "call" and re.search(r"alloc::vec::Vec.*::new$|::from_elem$|::with_capacity$", x_["callee"]) for x_ in P.origins(f, {"k": "copy", "pl": {"l": l, "p": []}}))}
+        acc = acc | {l for l in flow if any(l2 in acc for l2 in K.user_locals(f, {"k": "copy", "pl": {"l": l, "p": []}}))} if acc else acc
+    ctx.check(R, f, "accumulator", len(acc) >= 1, "retain() is given the tombstone list (%d local(s) it is carried in)" % len(acc), "cannot identify the tombstone accumulator")
+    if not acc:
         return
-    a = next(iter(acc))
-    # (re)initialisations: whole-local definitions of the accumulator, or Vec::clear(&mut acc)
-    reinit = [pt for pt, kind, _pl in P.defs(f).of(a) if kind in ("call", "assign")]
+    # (re)initialisations: a fresh vector stored into the accumulator, or Vec::clear(&mut acc); a move from one carrier to the next is not one
+    reinit = []
+    for a in acc:
+        for pt, kind, pl_ in P.defs(f).of(a):
+            if kind == "call" and re.search(r"alloc::vec::Vec.*::(new|with_capacity)$|::from_elem$|Default>::default$", callee_skey(pl_) or ""):
+                reinit.append(pt)
+            elif kind == "assign" and pl_["rv"].get("r") in ("agg",):
+                reinit.append(pt)
     for p_ in P.call_points(f, r"alloc::vec::Vec.*::clear$"):
-        if a in K.base_locals(f, P.term_at(f, p_)["args"][0]):
+        if acc & K.base_locals(f, P.term_at(f, p_)["args"][0]):
             reinit.append(p_)
+    a = None
     # uses: retain / push / return_key involving the accumulator
     uses = []
     for b, t in f.calls():
         ck = callee_skey(t) or ""
         # every call that is handed the accumulator (retain, push, return_key, `last()` ..) except the resets themselves
         if not re.search(r"alloc::vec::Vec.*::(clear|new|with_capacity)$", ck):
-            if any(a in K.base_locals(f, x) or (x.get("k") in ("move", "copy") and x["pl"]["l"] == a) for x in t["args"]):
+            if any(acc & K.base_locals(f, x) or (x.get("k") in ("move", "copy") and x["pl"]["l"] in acc) for x in t["args"]):
                 uses.append(P.term_pt(f, b.idx))
     ctx.floor(R, "uses of the tombstone list", len(uses), 2)
     # key switches: writes into self.key_backing
